@@ -16,10 +16,10 @@ prop("C07",
                 "both sides, SAME lock string on both sides as a theorem about regenerated key functions, server wiring, "
                 "counting rule, >=, allocate-during-filter condition). Counter theorems on the model: "
                 "pool_never_exceeds_size_counter (DESIGN D15), sync_pass_counter (pod-IP sync pass).",
-     level_note="_partial: side condition `callowed`, on four moves only - (a) bind: the pod already owns an address for every "
+     level_note="_partial: side condition `callowed`, on five moves only - (a) bind: the pod already owns an address for every "
                 "request (bindOK: what a Filter that saw the Pool object leaves behind) OR its pool is not a sized pool at that "
                 "moment (no Pool object of that name, nobody counting for it; such a step is reported as unsizedBind instead of "
-                "bounded - the property speaks of sized pools); (b) syncPodIPs: the pass re-creates no pool record (syncOK); "
+                "bounded - the property speaks of sized pools); (b) syncPodIPs / markTerminating (UpdatePod's syncPodIP): the pass re-creates no pool record (syncOK / termOK); "
                 "(c) reload: new pools have a node subnet and no store object orphaned by an earlier reload belongs to a pool; "
                 "restart: no such orphan. (a) and (b) are NOT guaranteed by the code: a pod filtered while the Pool object was not "
                 "visible is bound without looking at the size (replay corpus/C07/d15.ops, known finding "
